@@ -1,6 +1,8 @@
 package main
 
 import (
+	"strconv"
+	"time"
 	"verif/harness/hx"
 )
 
@@ -197,12 +199,12 @@ func genTargeted(h *harn) {
 		return &rnode{kind: kField, op: op, path: []string{"a"}, cs: false, vals: []*string{sp(v)}}
 	}
 	a := func(s string) hx.Sx { return jObj(jKV("a", jStr(s))) }
-	h.check("unicode-fold", 0, ci(0, "K"), a("k"))                // KELVIN SIGN value vs "k"
-	h.check("unicode-fold", 0, ci(0, "k"), a("K"))                // "k" value vs KELVIN SIGN field
-	h.check("unicode-fold", 0, ci(4, "İ"), a("xi̇"))         // suffix İ vs "xi̇"
-	h.check("unicode-fold", 0, ci(3, "kab"), a("Kab"))            // prefix
-	h.check("unicode-fold", 0, ci(1, "KK"), a("k"))          // contains
-	h.check("unicode-fold", 0, ci(0, "\xff"), a("\xff"))               // invalid UTF-8 grows to U+FFFD
+	h.check("unicode-fold", 0, ci(0, "K"), a("k"))       // KELVIN SIGN value vs "k"
+	h.check("unicode-fold", 0, ci(0, "k"), a("K"))       // "k" value vs KELVIN SIGN field
+	h.check("unicode-fold", 0, ci(4, "İ"), a("xi̇"))     // suffix İ vs "xi̇"
+	h.check("unicode-fold", 0, ci(3, "kab"), a("Kab"))   // prefix
+	h.check("unicode-fold", 0, ci(1, "KK"), a("k"))      // contains
+	h.check("unicode-fold", 0, ci(0, "\xff"), a("\xff")) // invalid UTF-8 grows to U+FFFD
 	h.check("unicode-fold", 1, &rnode{kind: kNot, ops: []*rnode{ci(0, "K")}}, a("K"))
 	for i := 0; i < 40*h.c.Scale; i++ {
 		g := h.g
@@ -252,6 +254,30 @@ func genRandom(h *harn) {
 			ts = append(ts, g.tree(hx.Pick(r, evs), r.Range(1, 4)))
 		}
 		h.seq("sequence", r.Intn(2), ts, evs, false)
+	}
+	// the same checkers over events of ONE layout whose timestamps (same length, same offset) fall on both sides of the
+	// constant: a decision must depend on the current event only, whatever the previous event at the same place was
+	for i := 0; i < 150*sc; i++ {
+		format, render := "2006-01-02T15:04:05Z07:00", func(t int64) string { return time.Unix(t, 0).UTC().Format(time.RFC3339) }
+		if r.Chance(1, 3) {
+			format, render = "unixtime", func(t int64) string { return strconv.FormatInt(t, 10) }
+		}
+		cv := int64(1600000000)
+		var ts []*rnode
+		for c := 0; c < 6; c++ {
+			if r.Chance(2, 3) {
+				ts = append(ts, &rnode{kind: kTs, path: []string{"ts"}, format: format, cmp: c, mode: 0, a: cv * 1e9})
+			}
+		}
+		if len(ts) == 0 {
+			ts = append(ts, &rnode{kind: kTs, path: []string{"ts"}, format: format, cmp: r.Intn(6), mode: 0, a: cv * 1e9})
+		}
+		var evs []hx.Sx
+		for j := r.Range(3, 8); j > 0; j-- {
+			t := cv + hx.Pick(r, []int64{-86400 * 400, -3600, -1, 0, 0, 1, 3600, 86400 * 400})
+			evs = append(evs, jObj(jKV("ts", jStr(render(t))), jKV("n", jStr("x"))))
+		}
+		h.seq("sequence-ts", r.Intn(2), ts, evs, false)
 	}
 	modes := []string{"and", "or", "and_prefix", "or_prefix", "", "and", "or", "nand"}
 	for i := 0; i < 3000*sc; i++ {
